@@ -7,6 +7,12 @@ VERIF = os.path.dirname(os.path.dirname(os.path.abspath(__file__)))
 ALL = [f"C{i:02d}" for i in range(1, 21)]
 
 CLAIMS = {
+    "C17": dict(
+        text="Machine-checked Coq proofs over ALL lists of well-formed entries (five location-entry forms, varints of any length as digit lists, negative line deltas; four-varint exception entries): parse_exception_table(encode es) = the entries; Code311.co_lines() on the encoded table = CPython 3.12+'s co_lines() exactly and CPython 3.11's per code unit; co_positions() entries, expanded per code unit, = CPython's co_positions(). Bit-level facts proved by a lifted 256-value sweep. Models tied to /repo by in-Coq correspondence on encoder-made, truncated and random tables.",
+        note="Trusted: Coq kernel; hand models coq/Model/CoLines.v, ExcTable.v + correspondence harness; Spec/Loc311.v, ExcTable.v (entries, CPython's encoders, semantics) validated on every run against co_lines()/co_positions()/dis._parse_exception_table of the installed 3.11, 3.12, 3.13. No axioms.",
+        technique="Coq proof by induction over entry lists (decoder of encoder = semantics) + in-Coq correspondence",
+        design="7/C17",
+    ),
     "C05": dict(
         text="Machine-checked Coq proofs: for EVERY byte table the model of findlinestarts bound by a version's opcode table equals that version's dis.findlinestarts (unsigned <3.6, signed 3.6-3.9, cut-off from 3.8); the 3.10 co_lines() model equals lineiter_next's sequence; findlinestarts over co_lines() equals the 3.10-3.12 and the 3.13 rules; offset2line's binary search returns the line of the greatest start <= offset for every strictly increasing mapping (invariant proof). Model tied to /repo by in-Coq correspondence through the opcode modules of 11 versions; 3.11+ location-table decoding is tied to the spec by the C17 theorems.",
         note="Trusted: Coq kernel; hand models coq/Model/LineStarts.v, CoLines.v + correspondence harness; Spec/Lnotab.v, Lines310.v, Loc311.v transcribed from CPython and validated on every run against dis.findlinestarts/co_lines() of the installed 2.7, 3.6-3.13. No axioms.",
